@@ -62,7 +62,8 @@ def check(run, model, tier):
         run.inst('KIND.wiring', w.subscribe, 'kind %s -> registry %s -> thread %s' % (kind, reg, w.threads[reg]['runner'].name), True, obligation=True)
     # "the back" / "the front" of an active object's queue are what LockingDeque.append / appendleft make of them: one deque operation at that end, existing order kept
     run.rule('ENDS.locking', 'LockingDeque.append/appendleft put the item at the same-named end of the deque with one operation, leaving the pending events in order')
-    queues.check_locking_deque(run, model, 'ENDS.locking', None, None)
+    run.rule('BOUND.tokens', 'the wake-up token queue and the deque it mirrors have the same capacity for every object')
+    queues.check_locking_deque(run, model, 'ENDS.locking', None, 'BOUND.tokens')
     run.rule('TOKEN.pairing', 'the consumer takes one wake-up token and at most one event per loop iteration (the precondition under which "token queue full" means "deque full" in append/appendleft)')
     from sa.context import callgraph
     queues.token_pairing(run, model, callgraph(model), 'TOKEN.pairing')
